@@ -265,7 +265,7 @@ func RunProg(pc *ProgCase) (out *ProgOutcome) {
 		crash := func() (d *Divergence) {
 			defer func() {
 				if p := recover(); p != nil {
-					d = &Divergence{Rule: "crash", Trait: panicTrait(p), What: fmt.Sprintf("adapter panicked applying tx %d: %v", tx.ID, p)}
+					d = &Divergence{Rule: "crash", Context: panicWhere("apply"), Trait: panicTrait(p), What: fmt.Sprintf("adapter panicked applying tx %d: %v", tx.ID, p)}
 				}
 			}()
 			resA, errA = ApplyAdapter(aw, env, msg)
@@ -332,10 +332,6 @@ func RunProg(pc *ProgCase) (out *ProgOutcome) {
 		ctx := func() string { return contextFor(h, aw, u, touched, fb) }
 
 		if crash != nil {
-			crash.Context = "apply-" + ctx()
-			if tracer.counts["op/revert"] > 0 || tracer.counts["fault/any"] > 0 {
-				crash.Context = "after-revert"
-			}
 			return fail(i, crash)
 		}
 		out.Counts["cmp/tx-results"]++
@@ -381,7 +377,6 @@ func RunProg(pc *ProgCase) (out *ProgOutcome) {
 			gasUsed = resA.UsedGas
 		}
 		if d := safely("end-tx", func() { aw.EndTx(ok, gasUsed) }); d != nil {
-			d.Context = "end-tx-" + ctx()
 			return fail(i, d)
 		}
 		rw.EndTx(ok)
@@ -412,7 +407,6 @@ func RunProg(pc *ProgCase) (out *ProgOutcome) {
 
 		if endBlock {
 			if d := safely("block-commit", func() { aw.EndBlock() }); d != nil {
-				d.Context = "block-commit"
 				return fail(i, d)
 			}
 			rw.EndBlock()
@@ -434,7 +428,7 @@ func RunProg(pc *ProgCase) (out *ProgOutcome) {
 func safely(phase string, f func()) (d *Divergence) {
 	defer func() {
 		if p := recover(); p != nil {
-			d = &Divergence{Rule: "crash", Context: phase, Trait: panicTrait(p), What: fmt.Sprintf("adapter panicked in %s: %v", phase, p)}
+			d = &Divergence{Rule: "crash", Context: panicWhere(phase), Trait: panicTrait(p), What: fmt.Sprintf("adapter panicked in %s: %v", phase, p), Fixed: true}
 		}
 	}()
 	f()
